@@ -2,6 +2,7 @@ package props
 
 import (
 	stdxml "encoding/xml"
+	"errors"
 	"fmt"
 	"strings"
 	"time"
@@ -361,6 +362,11 @@ func logoutAdversarial(r *core.Run, prop string) {
 		}
 	}
 	// ---- oracle
+	if errors.Is(out.Err, world.ErrNilResult) {
+		// neither a result nor an error: the caller is told nothing was wrong
+		r.Fail("kind", prop+"/nil-result-without-error/"+mint+"-at-"+endpoint, ctx)
+		return
+	}
 	if misroute {
 		if out.OK() {
 			r.Fail("kind", prop+"/wrong-kind-accepted/"+mint+"-at-"+endpoint, ctx)
